@@ -345,7 +345,7 @@ mod real {
             });
             let stdout = std::io::stdout();
             let mut out = stdout.lock();
-            match rx.recv_timeout(Duration::from_secs(4)) {
+            match rx.recv_timeout(Duration::from_secs(8)) {
                 Ok(Some(o)) => {
                     let log = verif::disarm();
                     writeln!(
